@@ -602,6 +602,90 @@ func registerLibIntrinsics() {
 	}
 
 	// strconv
+	// Split on a one-byte separator: concrete bytes split where they stand, a symbolic byte
+	// forks on being the separator, a symbolic string of unknown length forks on containing
+	// the separator at all (not contained: it stays in its piece; contained: unsupported)
+	split := func(asBytes bool) intrinsicFn {
+		return func(in *Interp, fr *frame, args []Value) (Value, bool) {
+			var src, sep Str
+			if asBytes {
+				a, ok1 := in.sliceToSym(fr, args[0])
+				b, ok2 := in.sliceToSym(fr, args[1])
+				if !ok1 || !ok2 {
+					return nil, false
+				}
+				src, sep = a, b
+			} else {
+				src, sep = strArg(args[0]), strArg(args[1])
+			}
+			cs, ok := sep.Concrete()
+			if !ok || len(cs) != 1 {
+				in.unsupported("Split with a separator that is not one concrete byte")
+			}
+			sb := cs[0]
+			var out []Str
+			cur := Str{}
+			for _, pc := range src.p {
+				switch pc.k {
+				case pkBytes:
+					parts := strings.Split(pc.b, cs)
+					for i, part := range parts {
+						if i > 0 {
+							out = append(out, cur)
+							cur = Str{}
+						}
+						cur = concatStr(cur, CStr(part))
+					}
+				case pkUnit:
+					eq := in.tt.Eq(pc.t, in.tt.BVConst(uint64(sb), 8))
+					if in.branch(boolVal(eq), "split: byte is the separator") {
+						out = append(out, cur)
+						cur = Str{}
+					} else {
+						cur = concatStr(cur, Str{p: []piece{pc}})
+					}
+				case pkAtom:
+					one := Str{p: []piece{pc}}
+					cont := in.tt.mk("seq.contains", "", BoolSort, 0, one.SeqTerm(in.tt), in.tt.mk("seq.unit", "", one.SeqTerm(in.tt).sort, 0, in.tt.BVConst(uint64(sb), 8)))
+					if in.branch(boolVal(cont), "split: symbolic string contains the separator") {
+						in.unsupported("Split of a symbolic string of unknown length that contains the separator")
+					}
+					cur = concatStr(cur, one)
+				}
+			}
+			out = append(out, cur)
+			vals := make([]Value, len(out))
+			for i, o := range out {
+				if asBytes {
+					vals[i] = SymBytes{s: o}
+				} else {
+					vals[i] = o
+				}
+			}
+			return Slice{arr: &vals, n: len(vals), cp: len(vals)}, true
+		}
+	}
+	I["bytes.Split"] = split(true)
+	I["strings.Split"] = split(false)
+	I["bytes.Join"] = func(in *Interp, fr *frame, args []Value) (Value, bool) {
+		sl, ok := args[0].(Slice)
+		sep, ok2 := in.sliceToSym(fr, args[1])
+		if !ok || !ok2 || sl.symLen != nil {
+			return nil, false
+		}
+		out := Str{}
+		for i := 0; i < sl.n; i++ {
+			e, ok := in.sliceToSym(fr, (*sl.arr)[sl.off+i])
+			if !ok {
+				return nil, false
+			}
+			if i > 0 {
+				out = concatStr(out, sep)
+			}
+			out = concatStr(out, e)
+		}
+		return SymBytes{s: out}, true
+	}
 	// strings.Replacer with single-byte old strings (the byte-escaping idiom)
 	I["strings.NewReplacer"] = func(in *Interp, fr *frame, args []Value) (Value, bool) {
 		sl, ok := args[0].(Slice)
@@ -815,6 +899,11 @@ func registerLibIntrinsics() {
 		s, ok := in.sliceToSym(fr, args[1])
 		if !ok {
 			in.unsupported("Buffer.Write of %T", args[1])
+		}
+		if p, _ := args[0].(*Value); p != nil && in.appended[p] {
+			if n, ok := s.ConcreteLen(); !ok || n > 0 {
+				in.staleChild = "a packet's content was written after the packet had been appended to its parent at " + fr.where()
+			}
 		}
 		o.str = concatStr(o.str, s)
 		return Tuple{s.LenValue(in.tt), Iface{}}, true
